@@ -168,6 +168,19 @@ protocol = pd.DataFrame(data).T
 protocol.index.name = 'Timedelta'
 return protocol"""
 
+# make_protocol building the frame row by row from list(pars.values()) under the FIRST step's key order (seeded change C14-8):
+# recognised, so that the table model (coq/sim/ProtocolTable.v, RowsPositional) runs against such a tree
+_MAKE_PROTOCOL_POSITIONAL = """names = list(steps[0][1])
+t_ends = []
+rows = []
+t0 = pd.Timedelta(0)
+for step, pars in steps:
+    t0 += pd.Timedelta(seconds=step)
+    t_ends.append(t0)
+    rows.append(list(pars.values()))
+return pd.DataFrame(np.array(rows), index=pd.TimedeltaIndex(t_ends, name='Timedelta'), columns=names)"""
+_PROTOCOL_ROWS = {_MAKE_PROTOCOL: "RowsByName", _MAKE_PROTOCOL_POSITIONAL: "RowsPositional"}
+
 _PRIOR = "0.0 if (variables := self.variables) is None else variables[-1].index[-1]"
 _ERRGUARD = "if len(self._errors) > 0:\n    return self"
 
@@ -253,7 +266,7 @@ def extract_facts() -> dict[str, str]:
         "tc_keep": "CmpUnknown", "skip_sim": "false", "skip_tc": "false", "skip_ss": "true",
         "ss_resets": "false", "ss_advances": "true", "ss_step": "0", "ss_max": "0",
         "ptc_cmp": "CmpUnknown", "win_lo": "CmpUnknown", "win_hi": "CmpUnknown", "updvar_keeps": "false",
-        "abs_time": "false", "shapes_ok": "false",
+        "abs_time": "false", "shapes_ok": "false", "protocol_rows": "RowsUnknown",
     }  # fail-closed defaults: none of them equals the pinned value
     try:
         sim_tree = ast.parse((common.REPO / "src/mxlpy/simulator.py").read_text())
@@ -277,7 +290,10 @@ def extract_facts() -> dict[str, str]:
         mp = next((n for n in init_tree.body if isinstance(n, ast.FunctionDef) and n.name == "make_protocol"), None)
     except (OSError, SyntaxError):
         mp = None
-    if _norm(mp) != _MAKE_PROTOCOL:
+    # how a step's values get into its row of the table is a fact of its own (gen_protocol_rows, pinned by
+    # C14_protocol_rows_pinned); only an unrecognised body counts as a changed shape
+    facts["protocol_rows"] = _PROTOCOL_ROWS.get(_norm(mp), "RowsUnknown")
+    if facts["protocol_rows"] == "RowsUnknown":
         shapes_ok = False
 
     ii = _norm(_method(sim_tree, "Simulator", "_initialise_integrator"))
@@ -522,10 +538,12 @@ def gen() -> dict[str, str]:
         "(* REGENERATED from src/mxlpy/simulator.py and src/mxlpy/integrators/int_scipy.py by harness/c04_sim.py;\n"
         "   do not edit.  An unrecognised shape yields *Unknown / false / 0, which breaks C04_facts_pinned and\n"
         "   C14_facts_pinned. *)\n"
-        "From Coq Require Import NArith.\nFrom Sim Require Import Integrator Views.\n"
+        "From Coq Require Import NArith.\nFrom Sim Require Import Integrator Views ProtocolTable.\n"
         "Definition gen_sim_facts : sim_facts :=\n  mkSimFacts " + " ".join(vals) + ".\n"
         "(* src/mxlpy/simulation.py: what reading a view of get_result() leaves in the model shared with the Simulator *)\n"
         "Definition gen_view_mode : view_mode := " + (vm := extract_view_mode()) + ".\n"
+        "(* src/mxlpy/__init__.py make_protocol: how a step's values get into its row of the table *)\n"
+        "Definition gen_protocol_rows : rows_mode := " + f["protocol_rows"] + ".\n"
     )
     common.write_if_changed(common.area_dir(AREA) / "GenSimFacts.v", text)
     return dict(f, view_mode=vm)
@@ -1986,6 +2004,77 @@ def gen_late_switch(rng, mode: str) -> dict:  # noqa: ANN001
     return {"mode": mode, "y0": [js(v) for v in y0], "p0": [js(v) for v in p0], "ops": ops}
 
 
+def gen_keyed_steps(rng, mode: str, names: list[str] | None = None) -> list:  # noqa: ANN001
+    """protocol steps over SEVERAL parameters, every step the same kind of mapping but written in its own KEY ORDER
+    (a Python dict is a mapping: {"k": 2, "c": 1/2} and {"c": 1/2, "k": 2} say the same); at least one step lists the
+    parameters in another order than the first, and k != c inside every step, so values landing on the wrong
+    parameter are observable (C14; seeded change C14-8: rows built from list(pars.values()))"""
+    if names is None:
+        names = ["k", "c"] + (["a"] if mode == "exact" and rng.random() < 0.3 else [])
+    n = rng.choice([2, 2, 3, 3, 4, 5])
+    first = list(names)
+    rng.shuffle(first)
+    orders = [list(first)]
+    for _ in range(n - 1):
+        o = list(first)
+        if rng.random() < 0.6:
+            rng.shuffle(o)
+        orders.append(o)
+    if all(o == first for o in orders[1:]):
+        orders[rng.randrange(1, n)] = first[1:] + first[:1]
+    steps = []
+    for o in orders:
+        k = rng.choice([F(0), F(1, 2), F(1), F(2), F(1, 4), F(4), F(3)])
+        c = rng.choice([v for v in (F(0), F(1, 2), F(1), F(3), F(1, 8), F(2)) if v != k])
+        vals = {"k": k, "c": c, "a": rng.choice([F(0), F(1, 2), F(1)])}
+        steps.append([js(_g(rng.randint(1, 16))), {nm: js(vals[nm]) for nm in o}])
+    return steps
+
+
+def gen_key_order(rng, mode: str) -> dict:  # noqa: ANN001
+    """histories around a protocol whose steps are written in different key orders (gen_keyed_steps): fresh or continued
+    (simulate / override / update_parameters written in either order), protocol or protocol time course (grid between /
+    at / beyond the boundaries, relative or absolute), optionally a second protocol with its own key orders"""
+    y0, p0 = _base(rng, mode)
+    ops: list = []
+    reached = F(0)
+    r = rng.random()
+    if r < 0.45:
+        reached = _g(rng.randint(1, 24))
+        ops.append(["sim", js(reached), rng.choice([1, 2, 4])])
+        if rng.random() < 0.35:
+            ops.append(["updvar", _one_var(rng)])
+    elif r < 0.6:
+        u = {"c": js(rng.choice([F(0), F(1, 2), F(1)])), "k": js(rng.choice([F(2), F(1, 4), F(3)]))}
+        ops.append(["updpar", u])
+    names = None
+    for cyc in range(2 if rng.random() < 0.3 else 1):
+        steps = gen_keyed_steps(rng, mode, names)
+        names = sorted(steps[0][1])  # a second protocol names the same parameters (again in its own orders)
+        total = sum(fr(d) for d, _ in steps)
+        if rng.random() < 0.45:
+            ops.append(["prot", steps, rng.choice([1, 2, 2, 4])])
+        else:
+            rel = rng.random() < 0.5
+            hi = int(total * GRID) + (8 if rng.random() < 0.3 else 0)
+            pts = set(rng.sample(range(1, hi + 1), min(rng.randint(1, 6), hi)))
+            acc = F(0)
+            for d, _ in steps:
+                acc += fr(d)
+                if rng.random() < 0.3:
+                    pts.add(int(acc * GRID))
+            if max(pts) <= 0:
+                pts.add(1)
+            base = F(0) if rel else reached
+            ops.append(["ptc", steps, [js(base + _g(j)) for j in sorted(pts)], rel])
+        reached += total
+        if cyc == 0 and rng.random() < 0.2:
+            ops.append(["updvar", _one_var(rng)])
+    if rng.random() < 0.2:
+        ops.append(["sim", js(reached + _g(rng.randint(1, 16))), rng.choice([1, 2])])
+    return {"mode": mode, "y0": [js(v) for v in y0], "p0": [js(v) for v in p0], "ops": ops}
+
+
 # ---------------------------------------------------------------------------------------
 # (6) Gallina printers + correspondence
 # ---------------------------------------------------------------------------------------
@@ -2066,10 +2155,12 @@ def coq_case(h: dict, obs: list[dict]) -> str:
 def corr_file(cases: list[str]) -> str:
     defs = "\n".join(f"Definition case_{i} : case :=\n  {c}." for i, c in enumerate(cases))
     return (
-        "From Coq Require Import QArith List.\nFrom Sim Require Import Integrator Simulator Protocol SimExec GenSimFacts.\n"
+        "From Coq Require Import QArith List.\n"
+        "From Sim Require Import Integrator Simulator Protocol ProtocolTable SimExec TableExec GenSimFacts.\n"
         "Import ListNotations.\nOpen Scope Q_scope.\n" + defs + "\n"
         "Definition cases : list case := [" + "; ".join(f"case_{i}" for i in range(len(cases))) + "].\n"
-        "Eval vm_compute in mismatches gen_sim_facts cases.\n"
+        # every protocol goes through the table model (TableExec.v): the step dicts are written in the history's key order
+        "Eval vm_compute in mismatches_t gen_protocol_rows gen_sim_facts cases.\n"
     )
 
 
@@ -2142,6 +2233,10 @@ ASSUMPTIONS = [
     "parameter values with the Coq model after every operation",
     "steady-state stamp clause of the oracle: the search step is the default step_size declared by Scipy.integrate_to_steady_state in "
     "the tree under test (also a pinned fact, ss_step)",
+    "protocol table: make_protocol's body is recognised in two shapes (by-name frame constructor / positional rows = fact "
+    "gen_protocol_rows); that pandas aligns the inner dicts of DataFrame({end: dict}) on their keys and that iterrows()/to_dict() read a "
+    "row back by column name is validated (oracle + correspondence on steps written in different key orders), not proved; steps naming "
+    "other parameters than the first step are outside the table model",
     "correspondence harness: literal printer, observation canonicaliser, coqc output parser",
 ]
 
